@@ -51,9 +51,16 @@ func verifRestored(t *refTerm, vx *Vaxis, tag string) {
 	zzverif.Assert(t.shape == int(vx.userCursorStyle), tag+":cursor-shape-restored")
 	zzverif.Assert(t.pointer == "" || t.pointer == "text" || t.pointer == "default", tag+":pointer-shape-restored")
 	if vx.caps.osc176 {
-		zzverif.Assert(t.appID == "" || t.appID == "app", tag+":application-id-restored")
+		zzverif.Assert(t.appID == verifOrigAppID || t.appID == "" && !verifAppIDTouched, tag+":application-id-restored")
 	}
 }
+
+// the terminal's original application id of the running path, and whether the application
+// changed it
+var (
+	verifOrigAppID    = "app"
+	verifAppIDTouched bool
+)
 
 // VerifC04Session: start-up (the mode-setting tail of New), an optional frame with cursor and
 // pointer-shape changes, 0-2 Suspend/Resume cycles and Close (twice), for every capability
@@ -82,7 +89,12 @@ func VerifC04Session() {
 	vx.disableMouse = zzverif.Bool("disableMouse")
 	vx.kittyFlags = 1
 	vx.userCursorStyle = CursorStyle(zzverif.Choose("userCursorStyle", 2) * 4)
-	vx.appIDLast = "app"
+	// the terminal's own application id, as reported to start-up: a name or empty
+	verifOrigAppID, verifAppIDTouched = "app", false
+	if history && zzverif.Bool("origAppIDEmpty") {
+		verifOrigAppID = ""
+	}
+	vx.appIDLast = appID(verifOrigAppID)
 	vx.termID = terminalID([]string{"", "tmux 3.4", "kitty 0.35"}[zzverif.Choose("termID", 3)])
 	t := newRefTerm(3, 2)
 	t.visible = 1
@@ -120,6 +132,7 @@ func VerifC04Session() {
 		}
 		if history && zzverif.Bool("setAppID") {
 			vx.SetAppID("mine")
+			verifAppIDTouched = true
 			t.feed(con.take())
 		}
 		// a shape requested after the last frame (never rendered) must not confuse shutdown
